@@ -577,6 +577,9 @@ func Run(sc *Scenario) *RunResult {
 	res := &RunResult{Probes: map[string]int64{}}
 	rn := &runner{api: api, sc: sc, res: res}
 	curDefaults.limit, curDefaults.negOff = sc.Cfg.PkgLimit, sc.Cfg.PkgNegOff
+	// (taken before the pristine evaluations: a call that starts goroutines of its own can race
+	// with itself even when it is run alone)
+	raceBefore := simrt.RaceErrors()
 
 	// 1. pristine outcomes, before the world under test exists
 	nslots := sc.NSlots
@@ -639,7 +642,6 @@ func Run(sc *Scenario) *RunResult {
 	for t := range sc.Tasks {
 		addShared(sc.Tasks[t])
 	}
-	raceBefore := simrt.RaceErrors()
 	simrt.Install(w)
 	api.Reset()
 	api.SetDefaults(sc.Cfg.PkgLimit, sc.Cfg.PkgNegOff)
